@@ -32,6 +32,10 @@ def run(ctx):
     # a vertex with two external legs is listed twice in `externals`
     ss += S.generate(ctx, 5 if ctx.quick else 25, 3, max_e=5, max_loops=3, routings_per_graph=1, kinds=("uniform",), ext_modes=["dup"])
     ss += S.generate(ctx, 3 if ctx.quick else 12, 3, max_e=6, max_loops=5, routings_per_graph=1, kinds=("uniform",), names=["banana5", "banana6"])
+    # every loop number 3..5 at ordinary points, in every run (the inverse of the Cholesky factor is a series in N of length dim - 1:
+    # a term dropped at dim = 3 or 5 leaves 1, 2, 4 exact), two routings each
+    ss += S.generate(ctx, 6 if ctx.quick else 24, 4, max_e=7, max_loops=5, routings_per_graph=2, kinds=("uniform",),
+                     names=["banana4", "mercedes", "ladder2", "sunrise_tadpole", "banana6", "banana6", "banana5"], mass_mode="some")
     # integral propagator powers 3, 4, 5 (Gamma(weight) = 2, 6, 24), alone and next to non-integral ones
     from .. import gen
     icases = []
